@@ -591,13 +591,24 @@ Lemma vs_next_step sp op :
   | None => vs_next (fst (vs_step sp op)) = None
   end.
 Proof.
-  destruct op as [now m_id tok topics|now id topics script|now]; cbn.
+  destruct op as [now m_id tok topics|now id topics script|now|now g]; cbn.
   - unfold vs_put, spec_put_id. destruct topics; cbn.
     + destruct (vs_next sp) as [c|]; [exists c; split; [auto|lia]|reflexivity].
     + destruct (vs_next sp) as [c|], m_id; cbn; try reflexivity;
         [exists c; split; [auto|lia]|exists (c + 1)%N; split; [auto|lia]].
   - destruct (vs_next sp) as [c|]; [exists c; split; [auto|lia]|reflexivity].
   - destruct (vs_next sp) as [c|]; [exists c; split; [auto|lia]|reflexivity].
+  - destruct (vs_next sp) as [c|]; [exists c; split; [auto|lia]|reflexivity].
+Qed.
+
+(* assigning GCInterval touches nothing but that field, in the model as in the specification *)
+Lemma vr_set_gci_refines s sp g :
+  VR s sp -> VR (mkv (v_q s) (v_cur s) (v_lastgc s) g (v_ttl s))
+                (mkvs (vs_l sp) (vs_next sp) (vs_lastgc sp) g (vs_ttl sp)).
+Proof.
+  intros (HR & Hcur & Hlgc & Hgci & Httl & Hids).
+  unfold VR; cbn [v_q v_cur v_lastgc v_gci v_ttl vs_l vs_next vs_lastgc vs_gci vs_ttl].
+  split; [exact HR|]. split; [exact Hcur|]. split; [exact Hlgc|]. split; [reflexivity|]. split; [exact Httl|exact Hids].
 Qed.
 
 Theorem valid_refines ops : forall s sp,
@@ -612,7 +623,7 @@ Proof.
       - destruct Hn as (c'' & H1 & H2). specialize (Hb c eq_refl). cbn [length] in Hb.
         assert (c'' = c') by congruence. lia.
       - congruence. }
-    destruct op as [now m_id tok topics|now id topics script|now]; cbn [vr_step vs_step] in *.
+    destruct op as [now m_id tok topics|now id topics script|now|now g]; cbn [vr_step vs_step] in *.
     + destruct (vr_put_refines s sp now m_id tok topics HVR) as (s' & Hput & HVR').
       rewrite Hput. destruct (vs_put sp now m_id tok topics) as [sp' r] eqn:Es. cbn [fst snd] in *.
       destruct (IH s' sp' HVR' Hb') as (tr & Htr & Hout & Hst).
@@ -625,6 +636,10 @@ Proof.
       constructor; assumption.
     + destruct (vr_gc_refines s sp now HVR) as (s' & Hgc & HVR'). rewrite Hgc.
       destruct (IH s' (vs_gc sp now) HVR' Hb') as (tr & Htr & Hout & Hst).
+      rewrite Htr. eexists; split; [reflexivity|]. cbn [map fst]. split; [now rewrite Hout|].
+      constructor; assumption.
+    + pose proof (vr_set_gci_refines s sp g HVR) as HVR'. cbn [fst] in Hb'.
+      destruct (IH _ _ HVR' Hb') as (tr & Htr & Hout & Hst).
       rewrite Htr. eexists; split; [reflexivity|]. cbn [map fst]. split; [now rewrite Hout|].
       constructor; assumption.
 Qed.
